@@ -376,13 +376,16 @@ def main():
             print(f"VIOLATION property={prop} replay={rp} no-failing-input-found")
             return 1
         tr = translate(out_dir)
-        log(f"translator: changed={tr['changed']} errors={tr['errors']}")
+        log(f"translator: changed={tr['changed']} errors={tr['errors']}"
+            + (f" fallbacks={tr.get('fallbacks')}" if tr.get("fallbacks") else ""))
         fp_path = os.path.join(GEN, "fingerprints.json")
         base_path = os.path.join(VERIF, "tools", "fingerprints.baseline.json")
         stale = []
         if os.path.exists(fp_path) and os.path.exists(base_path):
             cur, basefp = json.load(open(fp_path)), json.load(open(base_path))
             stale = sorted(k for k in cur if basefp.get(k) != cur[k])
+        # thresholds whose code shape the translator no longer recognises: last known value kept, search widened
+        stale += [f"translator-fallback: {x}" for x in tr.get("fallbacks", [])]
         ok_drv, out_drv = lake_build(["owldrv"])
         thm_names = theorem_names(prop)
         ok_thm, out_thm = (True, "")
